@@ -15,6 +15,14 @@
 //! api ops: <task>.<cmd>  (tasks: conn, drv, snd, q<sid>, q<sid>s); `conn.U` / `drv.U` list and drain the
 //!   WebTransport uni streams accepted so far (`<session>:<hex>:<open|fin|rst<c>>,…`); <task>.kill drops
 //!   the task's future, <task>.kill? does the same but tolerates a task that does not exist (any more)
+//!   WebTransport (server, after `conn.WT`): `conn.sid|ob[:<session>]|ou[:<session>]|ab|au|dgs:<hex>|dgr`; peer datagram
+//!   `d:<hex>`; one task `w<sid>` per opened / accepted stream: `rd` one poll_data, `ra` poll_data to the end, `wr:<hex>`
+//!   poll_send, `fi` poll_finish; the `AsyncRead` / `AsyncWrite` faces (added for C19):
+//!   `rf:<n1>,<n2>,…[:<calls>]` / `rt:…` read through futures / tokio `poll_read` with caller buffers of these sizes
+//!   (cycling) to the end or for <calls> completed calls → `data:<hex>:n=<bytes per call>:<end|more|err:rterm:<c>|err:conn>`;
+//!   `sp` BidiStream::split (send half → task `w<sid>s`); `sd:<hex>` send_data(Frame::Data) + poll_ready;
+//!   `wf:<hex>` / `wt:<hex>` write all through futures / tokio `poll_write`, then `poll_flush` → `ok:n=<bytes per call>`;
+//!   `cl` futures poll_close, `sh` tokio poll_shutdown, `rst:<code>` reset, `ss:<code>` stop_sending
 //!   stream commands: `rda` = recv_data until it answers `end` or an error (each answer one `rd=`
 //!   entry); a trailing `!` on a stream command (`rr!`, `rd!`, `rda!`, `rt!`, …) ends the task when
 //!   that call answers with an error (later commands then answer `no-task`)
@@ -472,6 +480,137 @@ fn session_num(s: &h3::webtransport::SessionId) -> String {
     format!("{:?}", s).chars().filter(|c| c.is_ascii_digit()).collect()
 }
 
+/// `<n1>,<n2>,…[:<calls>]`: caller buffer sizes (used cyclically; none given = 4096) and an optional
+/// bound on the number of completed `poll_read` calls
+fn parse_sizes(arg: &str) -> (Vec<usize>, Option<usize>) {
+    let (sz, calls) = match arg.split_once(':') {
+        Some((a, b)) => (a, b.parse::<usize>().ok()),
+        None => (arg, None),
+    };
+    let mut sizes: Vec<usize> = sz.split(',').filter_map(|x| x.parse::<usize>().ok()).collect();
+    if sizes.is_empty() {
+        sizes.push(4096);
+    }
+    (sizes, calls)
+}
+
+fn render_quic_stream_err(e: &h3::quic::StreamErrorIncoming) -> String {
+    match e {
+        h3::quic::StreamErrorIncoming::StreamTerminated { error_code } => format!("err:rterm:{}", error_code),
+        _ => "err:conn".into(),
+    }
+}
+
+/// the `std::io::Error` the `AsyncRead`/`AsyncWrite` impls answer with wraps the transport's error
+fn render_io_err(e: &std::io::Error) -> String {
+    match e.get_ref().and_then(|x| x.downcast_ref::<h3::quic::StreamErrorIncoming>()) {
+        Some(q) => render_quic_stream_err(q),
+        None => format!("err:io:{:?}", e.kind()),
+    }
+}
+
+fn join_counts(c: &[usize]) -> String {
+    if c.is_empty() {
+        "-".into()
+    } else {
+        c.iter().map(|x| x.to_string()).collect::<Vec<_>>().join(",")
+    }
+}
+
+/// read loop of an application that uses `poll_read` with its own buffers: every completed call
+/// contributes the bytes it reported; `Ok(0)` / nothing filled is the end of the stream.  The buffer is
+/// pre-filled with a marker and everything behind the reported length must still be the marker.
+macro_rules! wt_read {
+    ($s:expr, $tokio_face:expr, $sizes:expr, $calls:expr) => {{
+        let mut all: Vec<u8> = Vec::new();
+        let mut counts: Vec<usize> = Vec::new();
+        let mut i = 0usize;
+        let end = loop {
+            if let Some(m) = $calls {
+                if i >= m {
+                    break "more".to_string();
+                }
+            }
+            let n = $sizes[i % $sizes.len()];
+            i += 1;
+            let mut buf = vec![0xa5u8; n];
+            let r: std::io::Result<usize> = if $tokio_face {
+                let mut rb = tokio::io::ReadBuf::new(&mut buf);
+                match std::future::poll_fn(|cx| tokio::io::AsyncRead::poll_read(std::pin::Pin::new(&mut *$s), cx, &mut rb)).await {
+                    Ok(()) => Ok(rb.filled().len()),
+                    Err(e) => Err(e),
+                }
+            } else {
+                std::future::poll_fn(|cx| futures_util::io::AsyncRead::poll_read(std::pin::Pin::new(&mut *$s), cx, &mut buf)).await
+            };
+            match r {
+                Ok(0) => break "end".to_string(),
+                Ok(k) if k > n => break format!("err:overrun:{}", k),
+                Ok(k) => {
+                    if buf[k..].iter().any(|b| *b != 0xa5) {
+                        break "err:scribble".to_string();
+                    }
+                    all.extend_from_slice(&buf[..k]);
+                    counts.push(k);
+                }
+                Err(e) => break render_io_err(&e),
+            }
+        };
+        format!("data:{}:n={}:{}", to_hex(&all), join_counts(&counts), end)
+    }};
+}
+
+/// `write_all` + `flush` of an application that uses `poll_write` directly
+macro_rules! wt_write {
+    ($s:expr, $tokio_face:expr, $data:expr) => {{
+        let mut off = 0usize;
+        let mut counts: Vec<usize> = Vec::new();
+        let res = loop {
+            if off >= $data.len() {
+                break "ok".to_string();
+            }
+            let r = if $tokio_face {
+                std::future::poll_fn(|cx| tokio::io::AsyncWrite::poll_write(std::pin::Pin::new(&mut *$s), cx, &$data[off..])).await
+            } else {
+                std::future::poll_fn(|cx| futures_util::io::AsyncWrite::poll_write(std::pin::Pin::new(&mut *$s), cx, &$data[off..])).await
+            };
+            match r {
+                Ok(0) => break "err:zero".to_string(),
+                Ok(k) if off + k > $data.len() => break format!("err:overrun:{}", k),
+                Ok(k) => {
+                    off += k;
+                    counts.push(k);
+                }
+                Err(e) => break render_io_err(&e),
+            }
+        };
+        let res = if res == "ok" {
+            let f = if $tokio_face {
+                std::future::poll_fn(|cx| tokio::io::AsyncWrite::poll_flush(std::pin::Pin::new(&mut *$s), cx)).await
+            } else {
+                std::future::poll_fn(|cx| futures_util::io::AsyncWrite::poll_flush(std::pin::Pin::new(&mut *$s), cx)).await
+            };
+            match f {
+                Ok(()) => res,
+                Err(e) => render_io_err(&e),
+            }
+        } else {
+            res
+        };
+        format!("{}:n={}", res, join_counts(&counts))
+    }};
+}
+
+macro_rules! wt_close {
+    ($s:expr, $tokio_face:expr) => {{
+        if $tokio_face {
+            std::future::poll_fn(|cx| tokio::io::AsyncWrite::poll_shutdown(std::pin::Pin::new(&mut *$s), cx)).await
+        } else {
+            std::future::poll_fn(|cx| futures_util::io::AsyncWrite::poll_close(std::pin::Pin::new(&mut *$s), cx)).await
+        }
+    }};
+}
+
 enum WtStream {
     Bidi(h3_webtransport::stream::BidiStream<SimStream, Bytes>),
     Send(h3_webtransport::stream::SendStream<SimStream, Bytes>),
@@ -557,6 +696,122 @@ async fn wt_stream_task(name: String, mut st: WtStream, mb: Mailbox, ctx: Ctx) {
                     WtStream::Recv(_) => false,
                 };
                 ctx.log(&name, "fi", if r { "ok".into() } else { "err".into() });
+            }
+            // ---- C19: the `AsyncRead` / `AsyncWrite` faces of WebTransport streams
+            // rf:<n1>,<n2>,…[:<calls>]  read through futures `AsyncRead::poll_read` with caller buffers of
+            // the given sizes (cycling) until EOF / an error / <calls> completed calls;  rt: the same
+            // through tokio `AsyncRead::poll_read`.  Answer: data:<hex>:n=<bytes per call>:<end|more|err:…>
+            "rf" | "rt" => {
+                ctx.begin(&name, op);
+                let (sizes, calls) = parse_sizes(arg);
+                let out = match &mut st {
+                    WtStream::Bidi(s) => wt_read!(s, op == "rt", sizes, calls),
+                    WtStream::Recv(s) => wt_read!(s, op == "rt", sizes, calls),
+                    WtStream::Send(_) => "bad-cmd".to_string(),
+                };
+                ctx.log(&name, op, out);
+            }
+            // sp: `BidiStream::split`; this task keeps the receive half, the send half becomes task w<id>s
+            "sp" => {
+                st = match st {
+                    WtStream::Bidi(s) => {
+                        let (send, recv) = h3::quic::BidiStream::split(s);
+                        let sname = format!("{}s", name);
+                        let smb: Mailbox = Default::default();
+                        ctx.spawner.spawn(
+                            sname.clone(),
+                            smb.clone(),
+                            Box::pin(wt_stream_task(sname, WtStream::Send(send), smb, ctx.clone())),
+                        );
+                        ctx.log(&name, "sp", "ok".into());
+                        WtStream::Recv(recv)
+                    }
+                    other => {
+                        ctx.log(&name, "sp", "bad-cmd".into());
+                        other
+                    }
+                };
+            }
+            // sd:<hex>  `send_data(Frame::Data(bytes))` then `poll_ready` until done (what `SendStream<B>`
+            // offers on a WebTransport stream: the bytes go out as an HTTP/3 DATA frame)
+            "sd" => {
+                ctx.begin(&name, "sd");
+                let frame = h3::proto::frame::Frame::Data(Bytes::from(parse_hex(arg).unwrap_or_default()));
+                let r = match &mut st {
+                    WtStream::Bidi(s) => match s.send_data(frame) {
+                        Ok(()) => Some(poll_fn(|cx| s.poll_ready(cx)).await),
+                        Err(e) => Some(Err(e)),
+                    },
+                    WtStream::Send(s) => match s.send_data(frame) {
+                        Ok(()) => Some(poll_fn(|cx| s.poll_ready(cx)).await),
+                        Err(e) => Some(Err(e)),
+                    },
+                    WtStream::Recv(_) => None,
+                };
+                ctx.log(&name, "sd", match r {
+                    None => "bad-cmd".into(),
+                    Some(Ok(())) => "ok".into(),
+                    Some(Err(e)) => render_quic_stream_err(&e),
+                });
+            }
+            // wf:<hex> / wt:<hex>  write all of the bytes through futures / tokio `AsyncWrite::poll_write`
+            // (called again with the rest until everything is taken), then `poll_flush`.
+            // Answer: ok:n=<bytes taken per call> or <err>:n=<…>
+            "wf" | "wt" => {
+                ctx.begin(&name, op);
+                let data = parse_hex(arg).unwrap_or_default();
+                let out = match &mut st {
+                    WtStream::Bidi(s) => wt_write!(s, op == "wt", data),
+                    WtStream::Send(s) => wt_write!(s, op == "wt", data),
+                    WtStream::Recv(_) => "bad-cmd".to_string(),
+                };
+                ctx.log(&name, op, out);
+            }
+            // cl: futures `AsyncWrite::poll_close`; sh: tokio `AsyncWrite::poll_shutdown`
+            "cl" | "sh" => {
+                ctx.begin(&name, op);
+                let tokio_face = op == "sh";
+                let r = match &mut st {
+                    WtStream::Bidi(s) => Some(wt_close!(s, tokio_face)),
+                    WtStream::Send(s) => Some(wt_close!(s, tokio_face)),
+                    WtStream::Recv(_) => None,
+                };
+                ctx.log(&name, op, match r {
+                    None => "bad-cmd".into(),
+                    Some(Ok(())) => "ok".into(),
+                    Some(Err(e)) => render_io_err(&e),
+                });
+            }
+            // rst:<code>  `SendStream::reset`;  ss:<code>  `RecvStream::stop_sending`
+            "rst" => {
+                let c = arg.parse::<u64>().unwrap_or(0);
+                let ok = match &mut st {
+                    WtStream::Bidi(s) => {
+                        s.reset(c);
+                        true
+                    }
+                    WtStream::Send(s) => {
+                        s.reset(c);
+                        true
+                    }
+                    WtStream::Recv(_) => false,
+                };
+                ctx.log(&name, "rst", if ok { "ok".into() } else { "bad-cmd".into() });
+            }
+            "ss" => {
+                let c = arg.parse::<u64>().unwrap_or(0);
+                let ok = match &mut st {
+                    WtStream::Bidi(s) => {
+                        s.stop_sending(c);
+                        true
+                    }
+                    WtStream::Recv(s) => {
+                        s.stop_sending(c);
+                        true
+                    }
+                    WtStream::Send(_) => false,
+                };
+                ctx.log(&name, "ss", if ok { "ok".into() } else { "bad-cmd".into() });
             }
             _ => ctx.log(&name, op, "bad-cmd".into()),
         }
